@@ -17,11 +17,13 @@ RULE = (
     "disjoint exons (incl. none) over positions 1..6 (quick, 176 sets) / 1..8 (thorough, 709) x transcript span {hull, extended left, "
     "extended right} x strand {+,-} x CDS option (none, first, first+last, inner, first+last in descending file order) x name field "
     "{ID, Name} x argument {id, Feature} x thick (CDS) / thin (UTR) selection x always_return_list x coordinate offset {100, 0} "
-    "(thorough: full product; quick: an 8-row pairwise-covering set of these five options); every other exon set uses block_featuretype "
-    "'noncoding_exon' with a decoy exon child. bed12() is compared field by field (12 fields, "
+    "(thorough: full product; quick: an 8-row pairwise-covering set of these five options); blocks are children of the transcript and "
+    "(at two levels) of the gene; every other exon set uses block_featuretype 'noncoding_exon' with decoy children of type exon, "
+    "'Noncoding_Exon' and 'noncoding-exon'. bed12() is compared field by field (12 fields, "
     "chrom/start/end/name/score/strand/itemRgb/block count/sizes/starts, thick bounds), must raise ValueError exactly on a span "
-    "mismatch with exons; convert.to_bed12() (thick mode) is compared as well. Non-trivial = minus strand or interior interval (seq); "
-    ">= 2 exons or a span mismatch or no exon (bed)."
+    "mismatch with exons and no other exception; bed12() of the gene must give the same line apart from the name; convert.to_bed12() "
+    "(thick mode) is compared as well. Non-trivial = minus strand or interior interval (seq); >= 2 exons or a span mismatch or no exon "
+    "(bed). use_strand is only named when False (strand-aware is the documented default)."
 )
 ASSUMPTIONS = [
     "thickStart/thickEnd without thick features, and overlapping exons, are not demanded",
@@ -107,7 +109,7 @@ def body_seq(ch, ctx):
     ctx.outcome((rec, strand, use_strand, e - s + 1))
     sig = dict(strand=strand, use_strand=use_strand)
     ctx.check(len(f) == e - s + 1, "len-differs", None, start=s, end=e, got=len(f))
-    got = f.sequence(path if as_path else fa, use_strand=use_strand)
+    got = f.sequence(path if as_path else fa, **({} if use_strand else dict(use_strand=False)))      # strand-aware is the default
     positional = f.sequence(path if as_path else fa, use_strand)          # the same call, second argument positional
     ctx.check(str(positional) == str(got), "sequence-positional-call-differs", sig, keyword=str(got), positional=str(positional))
     ctx.check(str(got) == exp, "sequence-differs", sig, record=rec, start=s, end=e, got=str(got), expected=exp)
